@@ -98,6 +98,23 @@ type Err struct{}
 
 func (*Err) Error() string { return "" }
 
+// fields of func type named like interface methods are not methods
+type Hook struct{ Error func() string }
+type HookE struct{ Hook }
+type HookS struct{ String func() string }
+type HookM struct{ M func() }
+type HookW struct {
+	Write func(p []byte) (n int, err error)
+}
+type Wr struct{}
+
+func (*Wr) Write(p []byte) (int, error) { return 0, nil }
+type ErrE struct{ *Err }
+type IfaceE interface {
+	Iface
+	error
+}
+
 type G[T any] struct{ v T }
 type Num interface{ ~int | ~float64 }
 
@@ -120,6 +137,14 @@ var gstr Str
 var gpstr *PStr
 var gbad BadStr
 var gerr *Err
+var ghook Hook
+var ghooke HookE
+var ghooks HookS
+var ghookm HookM
+var ghookw HookW
+var gwr Wr
+var gerre ErrE
+var gIE IfaceE
 var gS S
 var gSP SP
 var gflat Flat
@@ -198,6 +223,8 @@ var exprs = []string{
 	"gi", "gs", "gp", "gpp", "gsl", "gbs", "gm", "gch", "gf", "ge", "gif", "gI", "gimpl", "gpimpl", "gstr", "gpstr", "gbad", "gerr", "gS", "gSP",
 	"gflat", "garr", "garrp", "gG", "gGs", "gu8", "gu", "gu64", "gi8", "gi64", "gr", "gby", "gf32", "gf64", "gc64", "gc128", "gb", "gup", "guptr",
 	"gAI", "gAP", "gAS", "gASl", "gmi", "gms", "gmf", "gmu", "gmsl", "gfn",
+	// method sets: func-typed fields named like methods (also promoted / behind a pointer), promoted methods, embedded interfaces
+	"ghook", "&ghook", "ghooke", "&ghooke", "ghooks", "&ghooks", "ghookm", "ghookw", "&ghookw", "gwr", "&gwr", "gerre", "&gerre", "gIE", "struct{ Error func() string }{}", "&struct{ String func() string }{}",
 	// locals, parameters, type parameters
 	"loc", "lp", "prm", "vs", "t", "u", "n", "&t",
 	// selectors, qualified identifiers
@@ -259,6 +286,7 @@ var multis = [][]string{
 	{"gi", "gi", "gs"}, {"gs", "gi", "gi"}, {"gi", "gs", "gi"}, {"1", "2", "gi"}, {"gi", "1", "2"}, {"gsl", "gsl", "gi"}, {"f1()", "gi", "gi"}, {"gi", "gi", "f1()"},
 	{"&gi", "gi", "gi"}, {"gi", "gi", "&gi"}, {"[]int{1}", "[]int{2}", "gsl"}, {"gsl", "[]int{1}", "[]int{2}"}, {"gp", "gp", "gi"}, {"gi", "gp", "gp"},
 	{"gstr", "gstr", "gi"}, {"gi", "gstr", "gstr"}, {"ge", "ge", "gi"}, {"gi", "ge", "ge"}, {"vs", "vs", "prm"}, {"prm", "vs", "vs"},
+	{"ge", "ghook"}, {"ghook", "ge"}, {"gerr", "ghooke", "ge"}, {"gstr", "ghooks"}, {"gimpl", "ghookm"},
 	{"ge", "gi", "ge"}, {"gi", "gsl", "gi"}, {"1", "gi", "2"}, {"[]int{1}", "gsl", "[]int{2}"}, {"gi", "f1()", "gi"}, {"gstr", "gi", "gstr"}, {"gi", "&gi", "gi"},
 }
 
@@ -766,20 +794,21 @@ func (e *env) containsExpr(x, y ast.Expr) bool {
 // ---------------------------------------------------------------- predicate instances
 
 type pred struct {
-	name   string                          // stable key
-	ctor   string                          // constructor in filters.go that ir_loader builds for it
-	mk     func(v string) *filt.DExpr      // DSL expression on variable v
-	fact   func(e *env, x ast.Expr) tri    // documented fact for one captured expression
-	nilRes bool                            // what the closure answers when it gets no expression (nil / invalid type)
-	kinds  string                          // which rule kinds: s(ingle) l(ist) t(statement) p(air) r(oot) f(ile-level, single)
-	factP  func(e *env, x, y ast.Expr) tri // pair predicates
-	factR  func(e *env, s *sinkSite) tri   // root predicates
-	gover  string                          // GoVersion predicates: comparison token
-	ver    string
-	mode   string                         // typed | expr | node : what the closure looks at
-	nilT   func(e *env) tri               // typed: the fact about the invalid type (what the closure sees when there is no expression)
-	onStmt func(e *env, s ast.Stmt) tri   // node: the fact about a captured statement
-	onList func(e *env, l []ast.Expr) tri // node: the closure's answer for a `$*xs` slice node (faithful, for the known finding)
+	name      string                          // stable key
+	ctor      string                          // constructor in filters.go that ir_loader builds for it
+	mk        func(v string) *filt.DExpr      // DSL expression on variable v
+	fact      func(e *env, x ast.Expr) tri    // documented fact for one captured expression
+	nilRes    bool                            // what the closure answers when it gets no expression (nil / invalid type)
+	kinds     string                          // which rule kinds: s(ingle) l(ist) t(statement) p(air) r(oot) f(ile-level, single)
+	factP     func(e *env, x, y ast.Expr) tri // pair predicates
+	factR     func(e *env, s *sinkSite) tri   // root predicates
+	gover     string                          // GoVersion predicates: comparison token
+	ver       string
+	mode      string                         // typed | expr | node : what the closure looks at
+	nilT      func(e *env) tri               // typed: the fact about the invalid type (what the closure sees when there is no expression)
+	onStmt    func(e *env, s ast.Stmt) tri   // node: the fact about a captured statement
+	onList    func(e *env, l []ast.Expr) tri // node: the closure's answer for a `$*xs` slice node (faithful, for the known finding)
+	refusable bool                           // see ruleOut.Refusable
 }
 
 type sinkSite struct {
@@ -827,6 +856,10 @@ func preds(e0 *env) []pred {
 	hm := typePred("Type.HasMethod:fmt.Stringer.String", "makeTypeHasMethodFilter", func(v string) *filt.DExpr { return filt.Call("Type.HasMethod", v, filt.Str("fmt.Stringer.String")) },
 		func(e *env, t types.Type) tri { return b2t(e.hasMethod(t, "String", strSig)) })
 	add(hm)
+	wrSig := types.NewSignatureType(nil, nil, nil, types.NewTuple(types.NewVar(token.NoPos, nil, "p", types.NewSlice(types.Typ[types.Byte]))),
+		types.NewTuple(types.NewVar(token.NoPos, nil, "n", types.Typ[types.Int]), types.NewVar(token.NoPos, nil, "err", types.Universe.Lookup("error").Type())), false)
+	add(typePred("Type.HasMethod:io.Writer.Write", "makeTypeHasMethodFilter", func(v string) *filt.DExpr { return filt.Call("Type.HasMethod", v, filt.Str("io.Writer.Write")) },
+		func(e *env, t types.Type) tri { return b2t(e.hasMethod(t, "Write", wrSig)) }))
 	hp := typePred("Type.HasPointers", "makeTypeHasPointersFilter", func(v string) *filt.DExpr { return filt.Call("Type.HasPointers", v) },
 		func(e *env, t types.Type) tri { return e.ptrClass(t) })
 	hp.nilT = func(e *env) tri { return no } // the invalid type is a basic type that is not in the pointer-kind list (model: has_pointers (SBasic "Invalid"))
@@ -859,6 +892,55 @@ func preds(e0 *env) []pred {
 				}
 				return b2t(cmpInt(c.tok, e.sizes.Sizeof(t), c.z))
 			}})
+	}
+	// the constant written on the left: `c op x` means `x mirror(op) c`; the loader refuses the ordering operators today
+	mirror := map[string]string{"EQL": "EQL", "NEQ": "NEQ", "LSS": "GTR", "GTR": "LSS", "LEQ": "GEQ", "GEQ": "LEQ"}
+	for _, c := range []struct {
+		tok string
+		z   int64
+	}{{"EQL", 8}, {"NEQ", 8}, {"LSS", 8}, {"LEQ", 8}, {"GTR", 8}, {"GEQ", 16}} {
+		c := c
+		add(pred{name: fmt.Sprintf("Type.Size:const-left:%d:%s", c.z, c.tok), ctor: "makeTypeSizeConstFilter", kinds: "s", mode: "typed", refusable: c.tok != "EQL" && c.tok != "NEQ",
+			nilT: func(e *env) tri { return b2t(cmpInt(mirror[c.tok], e.sizes.Sizeof(types.Typ[types.Invalid]), c.z)) },
+			mk:   func(v string) *filt.DExpr { return filt.Bin(c.tok, filt.Int(c.z), filt.Sel("Type.Size", v)) },
+			fact: func(e *env, x ast.Expr) tri {
+				t := e.typeOf(x)
+				if _, ok := t.(*types.TypeParam); ok {
+					return no
+				}
+				if b, ok := t.(*types.Basic); ok && b.Info()&types.IsUntyped != 0 {
+					return either
+				}
+				if tp, ok := t.(*types.Tuple); ok && tp != nil {
+					return either
+				}
+				return b2t(cmpInt(mirror[c.tok], e.sizes.Sizeof(t), c.z))
+			}})
+		add(pred{name: fmt.Sprintf("Value.Int:const-left:%d:%s", c.z-3, c.tok), ctor: "makeValueIntConstFilter", kinds: "s", refusable: c.tok != "EQL" && c.tok != "NEQ",
+			mk: func(v string) *filt.DExpr { return filt.Bin(c.tok, filt.Int(c.z-3), filt.Call("Value.Int", v)) },
+			fact: func(e *env, x ast.Expr) tri {
+				v := e.t.Info.Types[x].Value
+				if v == nil || v.Kind() != constant.Int {
+					return no
+				}
+				z, ok := constant.Int64Val(v)
+				if !ok {
+					return either
+				}
+				return b2t(cmpInt(mirror[c.tok], z, c.z-3))
+			}})
+		add(pred{name: "Text:const-left:gi:" + c.tok, ctor: "makeTextConstFilter", kinds: "s", mode: "node", refusable: c.tok != "EQL" && c.tok != "NEQ",
+			mk:   func(v string) *filt.DExpr { return filt.Bin(c.tok, filt.Str("gi"), filt.Sel("Text", v)) },
+			fact: func(e *env, x ast.Expr) tri { return b2t(cmpStr(mirror[c.tok], filt.Text(e.t, x), "gi")) }})
+		add(pred{name: "Line:const-left:1500:" + c.tok, ctor: "makeLineConstFilter", kinds: "s", mode: "node", refusable: c.tok != "EQL" && c.tok != "NEQ",
+			mk: func(v string) *filt.DExpr { return filt.Bin(c.tok, filt.Int(1500), filt.Sel("Line", v)) },
+			fact: func(e *env, x ast.Expr) tri {
+				return b2t(cmpInt(mirror[c.tok], int64(e.t.Fset.Position(x.Pos()).Line), 1500))
+			}})
+		add(pred{name: "Line:1500:" + c.tok, ctor: "makeLineConstFilter", kinds: "st", mode: "node",
+			mk:     func(v string) *filt.DExpr { return filt.Bin(c.tok, filt.Sel("Line", v), filt.Int(1500)) },
+			fact:   func(e *env, x ast.Expr) tri { return b2t(cmpInt(c.tok, int64(e.t.Fset.Position(x.Pos()).Line), 1500)) },
+			onStmt: func(e *env, s ast.Stmt) tri { return b2t(cmpInt(c.tok, int64(e.t.Fset.Position(s.Pos()).Line), 1500)) }})
 	}
 	add(typePred("Comparable", "makeComparableFilter", func(v string) *filt.DExpr { return filt.Sel("Comparable", v) },
 		func(e *env, t types.Type) tri { return b2t(types.Comparable(t)) }))
@@ -1136,6 +1218,9 @@ type ruleOut struct {
 	LoadErr string `json:"load_err,omitempty"`
 	Panic   string `json:"panic,omitempty"`
 	Obs     []obs  `json:"obs"`
+	// Refusable: the spelling is one the loader may refuse (an ordering comparison with the constant on the left); if it
+	// loads it must mean the mirrored comparison
+	Refusable bool `json:"refusable,omitempty"`
 }
 
 type rule struct {
@@ -1283,7 +1368,7 @@ func main() {
 		mkRule := func(kind, pattern, v string) {
 			d := p.mk(v)
 			rules = append(rules, &rule{p: p, kind: kind, where: d,
-				out: &ruleOut{K: "rule", Name: p.name, Kind: kind, Ctor: p.ctor, Src: d.Go(), Pattern: pattern, Mode: p.mode, Obs: []obs{}}})
+				out: &ruleOut{K: "rule", Name: p.name, Kind: kind, Ctor: p.ctor, Src: d.Go(), Pattern: pattern, Mode: p.mode, Obs: []obs{}, Refusable: p.refusable}})
 		}
 		for _, k := range p.kinds {
 			switch k {
@@ -1549,7 +1634,7 @@ func main() {
 					pick = true
 				}
 			}
-			if !pick || len(seq) >= W {
+			if !pick || p.refusable || len(seq) >= W {
 				continue
 			}
 			d := p.mk("x")
